@@ -17,10 +17,10 @@ META = dict(
         quick="all pairs of graphs (connected or not) on <=3 nodes, plus equal-size 4-node pairs with <=3 bonds; element "
               "in {C,N}, charge in {0,1}, hcount in {0,1}, order in {1,2}; second graph under the same ids and under "
               "shifted ids with reversed insertion order; WL filter on/off; engines with node_attrs [element,charge] and "
-              "[element] querying the same objects in both orders; induced and monomorphism mode, use_filter on/off; streams of short-lived graph pairs under eager address recycling",
+              "[element] querying the same objects in both orders; induced and monomorphism mode, use_filter on/off; streams of short-lived graph pairs under eager address recycling; WL filter on/off and engine histories also for five-atom hosts (5-ring, branched tree [thorough: 5-chain]) against 3- and 4-atom chain [thorough: star] patterns, elements only",
         thorough="all pairs on <=4 nodes (<=4 bonds)",
     ),
-    outside=["graphs > 4 nodes", "the optional 'mod' rule backend (not installed)", "MultiGraph/DiGraph inputs"],
+    outside=["graphs > 4 nodes apart from the listed five-atom hosts", "the optional 'mod' rule backend (not installed)", "MultiGraph/DiGraph inputs"],
     stubs=["stream harness: module attribute `id` of graph_matcher replaced by vf/idstub.py (eager, contract-conforming address recycling)"],
     assumptions=["hcount rule: the verdict must equal the bijection formula with host>=pattern hydrogen counts in one of "
                  "the two argument orders (the API does not say which argument is the host); symmetry is demanded only "
@@ -135,7 +135,7 @@ def h_filters(E, an, aedges, bn, bedges, shift, dom="noh"):
             E.check(got != v_el, "verdict-depends-on-earlier-query-with-other-attributes",
                     dict(info, engines="no-edge-attrs first", fresh=v_el, after=got))
     GME._wl_cache.clear()
-    E.note(nontrivial=v or v_el)
+    E.note(nontrivial=v or v_el or len(m) > 0)
     E.observe((v, v_el, key(m)))
 
 
@@ -263,6 +263,14 @@ def shards(tier, seed):
         if an >= bn and len(ae) >= len(be):
             dom = "noh" if (an + bn <= 5 or not q) else "bare"
             sh.append(dict(h="filters", params=dict(an=an, aedges=ae, bn=bn, bedges=be, shift=True, dom=dom)))
+    # five-atom hosts (ring, branched tree, chain) against strictly smaller chain / star patterns: the regime in which a
+    # necessary-condition pre-filter for proper sub-graphs has room to go wrong
+    ring5 = [[1, 2], [2, 3], [3, 4], [4, 5], [1, 5]]
+    tee5 = [[1, 2], [2, 3], [3, 4], [3, 5]]
+    chain5 = [[1, 2], [2, 3], [3, 4], [4, 5]]
+    for he in (ring5, tee5) + (() if q else (chain5,)):
+        for pn, pe in ((4, [[1, 2], [2, 3], [3, 4]]), (3, [[1, 2], [2, 3]])) + (() if q else ((4, [[1, 2], [1, 3], [1, 4]]),)):
+            sh.append(dict(h="filters", params=dict(an=5, aedges=he, bn=pn, bedges=pe, shift=True, dom="bare")))
     for (hn, he), (pn, pe) in itertools.product(small + four, small):
         if pn <= hn and len(pe) <= len(he) and hn >= 2:
             if q and hn == 4 and pn == 3 and len(pe) >= 2:
